@@ -55,7 +55,7 @@ CHECKS = {
     ),
     "C16": dict(
         category="fault_enumeration",
-        text="Crash-point enumeration: for each program (hand-written fixtures + the repo's own registered testcases) every optimizer pass index (top level and per function body) is forced to abort under the default and the strict policy, and every equation-dispatch ordinal of the whole jaxpr tree is faulted seven ways (registry miss, plugin binds nothing, binds an unproduced value, raises, finds one of its inputs unbound, returns too many values, returns a non-value; quick tier: four of the seven per equation); each faulted to_onnx runs real code in a fresh-interpreter worker and is judged against the fault-free control of the same program (raise vs return, onnx checker full_check, ORT load, ORT outputs). Thorough = the entire registry x all crash points (exhaustive over registered programs when the budget suffices). Sampling, not proof, over programs.",
+        text="Crash-point enumeration: for each program (hand-written fixtures + the repo's own registered testcases) every optimizer pass index (top level and per function body) is forced to abort under the default policy and under the strict policy (quick tier: strict at the first, the last and four seeded pass indices), and every equation-dispatch ordinal of the whole jaxpr tree is faulted seven ways (registry miss, plugin binds nothing, binds an unproduced value, raises, finds one of its inputs unbound, returns too many values, returns a non-value; quick tier: four of the seven per equation); each faulted to_onnx runs real code in a fresh-interpreter worker and is judged against the fault-free control of the same program (raise vs return, onnx checker full_check, ORT load, ORT outputs). Thorough = the entire registry x all crash points (exhaustive over registered programs when the budget suffices). Sampling, not proof, over programs.",
         design_ref="§5.5",
         note="Trusted: onnx.checker, onnxruntime (single-threaded, no graph optimisation), the seams (module globals _OPTIMIZER_PASSES / dispatch_plugin_lowering / get_registered_lowering_plugin looked up at call time). Mid-pass aborts are excluded by the property's own quantifier.",
         technique="deterministic simulation: crash-point / fault enumeration with fault-free control",
